@@ -99,7 +99,7 @@ def run(R, tier, rng):
                         o = mk().astype(Narrow)
                         return [ident(kinds[j], getattr(o, f"f{j}")) for j in keep]
                     expect = [ids[j] for j in keep]
-                    R.record("astype " + show(ids) + " " + show(keep) + tag, guarded(ast), expect, expect, nt, "astype", py=f"obj.astype(<fields {keep}>)")
+                    add("dc_astype " + show(ids) + " " + show(keep) + tag, guarded(ast), "astype", nt, f"obj.astype(<fields {keep}>)")
     # VarLenArray concatenation: right-aligned, zero padded on the left
     for _ in range(400 if tier == "thorough" else 120):
         blocks = []
